@@ -657,3 +657,18 @@ _RETRY = '''        with self.lock:
 V("c02-fallback-keeps-axis", "C02", "M", XRP, "        with self.lock:\n            return self.array[key]\n", _RETRY + _BYLINE % "", "C02-X7")
 V("c02-eq-fallback-drops-axis", "C02", "E", XRP, "        with self.lock:\n            return self.array[key]\n",
   _RETRY + _BYLINE % "        if isinstance(rows, int):\n            return self.array[key]\n")
+V("c20-conflicting-padding-raises", "C20", "M", UTL, "    return dict(_remove(mapping))", '''    flattened = {}
+    conflicts = []
+    for key, value in _remove(mapping):
+        if key in flattened and flattened[key] != value:
+            conflicts.append(key)
+        flattened[key] = value
+    if conflicts:
+        raise ValueError("conflicting values for " + ", ".join(conflicts))
+
+    return flattened''', "C20-P8")
+V("c20-eq-flatten-loop", ["C20", "C03", "C12"], "E", UTL, "    return dict(_remove(mapping))", '''    flattened = {}
+    for key, value in _remove(mapping):
+        flattened[key] = value
+
+    return flattened''')
